@@ -316,6 +316,9 @@ type EnumCtx struct {
 // processes. desc (JSON-able) must allow the harness to rebuild sub for replay.
 func (c *EnumCtx) Explore(sub *Scenario, desc any) {
 	r := exploreScenario(sub, 0, 1, c.deadline, 0)
+	if os.Getenv("VERIF_DEBUG") != "" {
+		fmt.Fprintf(RealStderr, "sub %-70s execs=%d bound_done=%d timed_out=%v wall=%.1fs\n", sub.Name, r.Execs, r.BoundDone, r.TimedOut, r.Wall)
+	}
 	c.res.Cases++
 	c.res.Execs += r.Execs
 	c.res.Steps += r.Steps
